@@ -65,7 +65,27 @@ def space(tier):
         if len(p) >= 2 and ST.count(p, lambda s: s[0] in ("D", "C")) >= 1:
             for k in range(1, len(p)):
                 cases.append((p, 2, k))
+    # the same code in a private function, and in a private helper called from the public entry point (programs with <= 3 nodes)
+    for p in g3.programs(3):
+        if ST.count(p, lambda s: s[0] in ("D", "C")) >= 1:
+            for n in b["cores"]:
+                cases.append((p, n, "private"))
+                cases.append((p, n, "helper"))
     return cases
+
+
+def to_variant(text, how):
+    if how == "private":
+        return text.replace("func.func @f(", "func.func private @f(")
+    head = text.index("func.func @f(") + len("func.func @f(")
+    end = text.index(") {\n", head)
+    args = text[head:end]
+    names = [a.split(":")[0].strip() for a in args.split(",")]
+    types = [a.split(":", 1)[1].strip() for a in args.split(",")]
+    entry = f"func.func @f({args}) {{\n  func.call @g({', '.join(names)}) : ({', '.join(types)}) -> ()\n  func.return\n}}\n"
+    text = text.replace("func.func @f(", "func.func private @g(")
+    k = text.rindex("}")
+    return text[:k] + entry + text[k:]
 
 
 KIND = {"memref.copy": "D", "linalg.generic": "C", "dart.operation": "C", "test.op": "O", "snax.cluster_sync_op": "B"}
@@ -123,7 +143,9 @@ def evaluate(case, only=None) -> CaseResult:
     prog, n, split = case
     r = CaseResult()
     em = ST.Emitter(leaf_emit, BUFS)
-    text = em.emit(prog, split_at=split)
+    text = em.emit(prog, split_at=split if isinstance(split, int) else None)
+    if isinstance(split, str):
+        text = to_variant(text, split)
     try:
         base = common.parse(text)
         base.verify()
